@@ -8,6 +8,7 @@ import (
 	"github.com/go-kid/ioc/component_definition"
 	"github.com/go-kid/ioc/container"
 	"github.com/go-kid/ioc/container/support"
+	"github.com/go-kid/ioc/util/reflectx"
 	"github.com/go-kid/ioc/zzverif/nd"
 )
 
@@ -684,6 +685,18 @@ func (e *vEnv) checkIdentityWrapped() {
 		c1, err1 := e.f.GetComponentByName(nd0.name)
 		nd.Assert(err1 == nil, "C03: lookup by name succeeds after a successful start")
 		pub[i] = c1
+	}
+	// a self-naming component is registered under its own name only: asking for it under its type id
+	// finds nothing - in particular it never creates a second version of the singleton
+	for i := range e.nodes {
+		c2, err2 := e.f.GetComponentByName(reflectx.Id(e.raws[i]))
+		known := false
+		for j := range pub {
+			if c2 == pub[j] {
+				known = true
+			}
+		}
+		nd.Assert(err2 != nil || known, "C01: a lookup under another name never yields a second version of a singleton")
 	}
 	all, errAll := e.f.GetComponents()
 	nd.Assert(errAll == nil && len(all) == e.n, "C01: the bulk lookup returns every component once")
